@@ -17,6 +17,8 @@ type Fault struct {
 	AlsoIDs []int    // further directives on which the error may legitimately be reported (documented per class)
 	// NextLine: the scanner reports a missing body where the body was expected: the line after the directive is accepted too
 	NextLine bool
+	// AtEndOfFile: the fault needs the faulty directive to be the last bytes of its file (no line break after it)
+	AtEndOfFile bool
 }
 
 type injector struct {
@@ -328,6 +330,31 @@ var Injectors = []injector{
 		}
 		return f
 	}},
+	{"second:response-Body-directive", func(r Rnd, tree *[]*Dir, ids *int) *Fault {
+		// a response whose body is given twice: two Body children, or a schema on the lines after the code plus a Body child
+		cands, _ := collect(*tree, func(d, p *Dir) bool {
+			if !isCode(d.Kw) || len(d.Params) > 0 {
+				return false
+			}
+			if d.BodyKind != "" {
+				return true
+			}
+			for _, c := range d.Children {
+				if c.Kw == "Body" {
+					return true
+				}
+			}
+			return false
+		})
+		if len(cands) == 0 {
+			return nil
+		}
+		d := pick(r, cands)
+		*ids++
+		nd := &Dir{ID: *ids, Kw: "Body", BodyKind: "schema", Body: []string{"{", `  "second": 2`, "}"}}
+		d.Children = append(d.Children, nd)
+		return &Fault{Class: "second:response-Body-directive", Msg: []string{msgNotUnique}, DirID: nd.ID}
+	}},
 	{"second:response-body", func(r Rnd, tree *[]*Dir, ids *int) *Fault {
 		// a response that names its type on the keyword line and again through a Body child
 		cands, _ := collect(*tree, func(d, p *Dir) bool {
@@ -551,6 +578,14 @@ var Injectors = []injector{
 	dropBody("Params", true, "the body cannot be empty"),
 	dropBody("Result", true, "the body cannot be empty"),
 	dropBody("TYPE", true, "the body cannot be empty"),
+	dropBody("ENUM", true, "the body cannot be empty"),
+	{"missing-body:ENUM", func(r Rnd, tree *[]*Dir, ids *int) *Fault {
+		// an ENUM without a body as the very last directive, the file ending right after its name
+		*ids++
+		nd := &Dir{ID: *ids, Kw: "ENUM", Params: []Param{{Text: "@zzLastEnum", NoQuote: true}}}
+		appendRoot(tree, nd)
+		return &Fault{Class: "missing-body:ENUM", Msg: []string{"the body cannot be empty", ""}, DirID: nd.ID, NextLine: true, AtEndOfFile: true}
+	}},
 	dropBody("Description", true, "the description cannot be empty"),
 	{"missing-body:response", func(r Rnd, tree *[]*Dir, ids *int) *Fault {
 		cands, _ := collect(*tree, func(d, p *Dir) bool { return isMethodKw(d.Kw) })
@@ -598,7 +633,7 @@ var Injectors = []injector{
 	forbidAnnotation("JSIGHT"), forbidAnnotation("INFO"), forbidAnnotation("Title"), forbidAnnotation("Version"), forbidAnnotation("Description"),
 	forbidAnnotation("BaseUrl"), forbidAnnotation("URL"), forbidAnnotation("Query"), forbidAnnotation("Request"), forbidAnnotation("Headers"),
 	forbidAnnotation("Protocol"), forbidAnnotation("Params"), forbidAnnotation("Result"), forbidAnnotation("Path"), forbidAnnotation("Tags"),
-	forbidAnnotation("OperationId"),
+	forbidAnnotation("OperationId"), forbidAnnotation("Body"),
 	{"jsight:missing", func(r Rnd, tree *[]*Dir, ids *int) *Fault {
 		if len(*tree) < 2 {
 			return nil
